@@ -170,6 +170,32 @@ func genMetricsPad(r *rng.R, tag string, n, pad int) pmetric.Metrics {
 					np = left
 				}
 				left -= np
+				if mid == 4 && pad == 0 && r.Intn(3) == 0 {
+					// a histogram whose points do not all have the same explicit bounds (valid OTLP:
+					// bounds belong to the point; STEF keeps them with the metric)
+					m.SetName("metric.hist")
+					h := m.SetEmptyHistogram()
+					h.SetAggregationTemporality(pmetric.AggregationTemporalityDelta)
+					for l := 0; l < np; l++ {
+						dp := h.DataPoints().AppendEmpty()
+						dp.Attributes().PutStr("vid", fmt.Sprintf("%s-%d", tag, idx))
+						idx++
+						bounds := [][]float64{{10, 100}, {5, 10, 50, 100}, {1}}[r.Intn(3)]
+						dp.ExplicitBounds().FromRaw(bounds)
+						counts := make([]uint64, len(bounds)+1)
+						var total uint64
+						for i := range counts {
+							counts[i] = uint64(r.Intn(9))
+							total += counts[i]
+						}
+						dp.BucketCounts().FromRaw(counts)
+						dp.SetCount(total)
+						dp.SetSum(float64(r.Intn(1000)) / 8)
+						dp.SetStartTimestamp(pcommon.Timestamp(1700000000000000000 + uint64(r.Intn(1000))))
+						dp.SetTimestamp(pcommon.Timestamp(1700000001000000000 + uint64(r.Intn(100000))))
+					}
+					continue
+				}
 				var dps pmetric.NumberDataPointSlice
 				switch mid % 3 {
 				case 0:
